@@ -32,4 +32,4 @@ class C02(Prop):
     def nontrivial(self, line, impl):
         if line.startswith("tbl"):
             return True
-        return any(tok[:1] not in ("p", "x") for tok in impl.split(" ") if tok)
+        return any(tok[:1] not in ("p", "x", "-") for tok in impl.split(" ") if tok)
